@@ -276,3 +276,13 @@ func (p *Prog) sizes() types.Sizes {
 	}
 	return types.SizesFor("gc", p.Arch)
 }
+
+// NamedQ resolves a qualified type name as produced by qualType ("starlark.cell",
+// "lib/proto.Message") to the named type.
+func (p *Prog) NamedQ(q string) *types.Named {
+	i := strings.LastIndex(q, ".")
+	if i < 0 {
+		return nil
+	}
+	return p.Named(q[:i], q[i+1:])
+}
